@@ -759,9 +759,17 @@ func compactToSliceOfSlice(compact [][2]int) [][]int {
 //	process(buf)
 func (r *Regex) AppendAllIndex(dst [][2]int, b []byte, n int) [][2]int {
 	if n == 0 {
-		return nil
+		return dst
 	}
-	return r.engine.FindAllIndicesStreaming(b, n, dst)
+	if len(dst) == 0 {
+		return r.engine.FindAllIndicesStreaming(b, n, dst)
+	}
+	// The engine reuses (truncates) the buffer it is given, so hand it only
+	// the spare capacity behind dst and append what it found to dst. When the
+	// matches fit in that capacity they are already in place and append copies
+	// them onto themselves.
+	tail := r.engine.FindAllIndicesStreaming(b, n, dst[len(dst):])
+	return append(dst, tail...)
 }
 
 // AppendAllStringIndex appends all successive match index pairs for the string
